@@ -31,7 +31,8 @@ def project(img):
     return {"shape": [int(s) for s in img.img.shape], "tags": [int(x) for x in np.asarray(img.img).astype(np.int64).ravel()],
             "dtype": str(img.img.dtype), "space_dim": int(img.space_dim), "series": int(bool(img.series)), "scalar": int(bool(img.scalar)),
             "origin": q(img.origin), "dims": q(img.dimensions), "time": [tn(t) for t in time] + [int(isinstance(img.time, list))],
-            "date": [dn(d) for d in date] + [int(isinstance(img.date, list))], "name": str(img.name), "indexing": str(img.indexing)}
+            "date": [dn(d) for d in date] + [int(isinstance(img.date, list))], "name": str(img.name), "indexing": str(img.indexing),
+            "colour": (str(getattr(img, "color_space", "?")) + ":" + type(img).__name__) if (hasattr(img, "color_space") or type(img).__name__ == "OpticalImage") else "none"}
 
 
 def make_image(darsia, rng, cfg):
@@ -58,6 +59,13 @@ def make_image(darsia, rng, cfg):
         kw["time"] = [2.5 * i + 1 for i in range(T)] if cfg["series"] else 4.5
     with warnings.catch_warnings():
         warnings.simplefilter("ignore")
+        if n == 2 and not cfg["scalar"] and dt in ("uint8", "uint16", "float32", "float64") and rng.random() < 0.6:
+            # an optical image: three colour components in one of the supported colour spaces
+            full3 = shape + ((T,) if cfg["series"] else ()) + (3,)
+            arr3 = (np.arange(int(np.prod(full3))) * 7 % 251).astype(dt).reshape(full3)
+            kw.pop("space_dim")
+            kw.pop("scalar")
+            return darsia.OpticalImage(arr3, color_space=rng.choice(["RGB", "BGR", "HSV"]), **kw)
         return darsia.Image(arr, **kw)
 
 
